@@ -10,6 +10,7 @@ import (
 	"fmt"
 	"log/slog"
 	"os"
+	"os/exec"
 	"reflect"
 	"sort"
 	"strings"
@@ -175,3 +176,6 @@ func init() {
 	core.RegisterAux("cfg-load", auxCfgLoad)
 	_ = time.Now
 }
+
+// execCommand is exec.Command (kept in one place so the monitors need not import os/exec each).
+var execCommand = exec.Command
